@@ -21,7 +21,8 @@ META = ["plain", "target", "target_opts", "type", "target_type_opts", "device", 
         "ver:1.10", "ver:01.5", "ver:2.00", "ver:1e1", "ver:1.5E-3", "ver:0.10", "ver:1.0000000000000000001", "ver:10.0e+0"]
 STMTS = ["noargs1", "noargs2_sq", "noargs2_rb", "noargs2_bare", "pos_num", "pos_mixed", "kw_num", "kw_list", "kw_mixed",
          "pos_kw", "measure", "measure_kw", "var_int_mode", "var_float_arg", "var_expr", "var_str_bool", "array_arg",
-         "array_idx", "loop_list", "loop_repeat", "loop_range", "trailing_comma", "expr_mode", "complex_arg", "empty_args", "str_like_literals", "number_spellings"]
+         "array_idx", "loop_list", "loop_repeat", "loop_range", "trailing_comma", "expr_mode", "complex_arg", "empty_args", "str_like_literals", "number_spellings",
+         "repeat_stmt", "high_index", "int_ops_in_modes"]
 
 
 class Env:
@@ -144,6 +145,23 @@ def stmt_lines(kind, env):
         return ["Zgate(%s, -%s) | %s" % (lv.complex("bj"), lv.complex("a+bj"), m())]
     if kind == "empty_args":
         return ["Vacuum() | %s" % m()]
+    if kind == "int_ops_in_modes":
+        # integer arithmetic (powers, products, brackets, unary minus) where an integer is required: modes, indices, int variables
+        a, k = env.name("P"), env.name("k")
+        return ["int %s = 2" % k, "int array %s =" % a, "    " + ", ".join(lv.int() for _ in range(9)),
+                "BSgate(%s[2**%s], %s[2**3], %s[%s*%s+1]) | [2**%s-1, 2**%s, 3**2*2]" % (a, k, a, a, k, k, k, k),
+                "int n%s = 3**%s" % (k, k), "Vac | [n%s, -(-2)**3, (1+%s)*4]" % (k, k)]
+    if kind == "repeat_stmt":
+        # the same statement written twice in a row, and a third time after another one: three operations each time
+        a, b, x = m(), m(), lv.float()
+        s1, s2 = "Sgate(%s, k=%s) | [%s, %s]" % (x, x, a, b), "Vac | %s" % a
+        return [s1, s1, s2, s2, s1]
+    if kind == "high_index":
+        # two-digit indices into a long row, first / last element, descending order of indices and modes
+        a = env.name("L")
+        els = [lv.int() for _ in range(12)]
+        return ["int array %s =" % a, "    " + ", ".join(els), "Dgate(%s[11], %s[10], %s[9], %s[0]) | %s" % (a, a, a, a, m()),
+                "Gate(%s[10]-%s[1], k=%s[11]) | [%s, %s]" % (a, a, a, m(), m())]
     raise ValueError(kind)
 
 
